@@ -1,9 +1,21 @@
 (** C07 – position and length bookkeeping.
-    Transcribes AtomicPosition::{inc,dec,set,reset} (src/state.rs:584-600),
-    BarState::{set_length,inc_length,dec_length,unset_length} (src/state.rs:99-121),
-    the position effect of finish_using_style (src/state.rs:40-64) and of
-    Reset::All (src/state.rs:80-82).  Only the fields the getters position(),
-    length(), is_finished() read. *)
+    Transcribes (line numbers: /repo HEAD 8b11f76)
+      - AtomicPosition::{reset,inc,dec,set}        src/state.rs:592-608 (fetch_add / fetch_sub
+        SeqCst, store Release on the shared AtomicU64 `pos`, :541),
+      - BarState::{unset_length,set_length,inc_length,dec_length}  src/state.rs:107-129
+        (saturating_add / saturating_sub only when the length is Some),
+      - the position/status effect of BarState::finish_using_style  src/state.rs:43-67
+        (`pos.set(len)` for AndLeave/WithMessage/AndClear when the length is known),
+      - BarState::reset, Reset::All                src/state.rs:74-92 (pos 0, status InProgress),
+      - the public entry points ProgressBar::{inc,dec,set_position,unset_length,set_length,
+        inc_length,dec_length,reset_eta,reset_elapsed,reset,finish*,abandon*,tick} and the
+        getters position(), length(), is_finished()  src/progress_bar.rs:243-371, 611-618, 266.
+    Only the fields the three getters read.  The model has NO panic outcome: none of the
+    transcribed operations has a failing branch (wrapping / saturating arithmetic, Option
+    matches); "never panicking" is checked on the implementation only (harness class `panic`).
+    One operation = one step: for histories issued from several threads this is the
+    ASSUMPTION that each atomic read-modify-write / store is indivisible (see docs/C07.md).
+    Definitions only. *)
 From IndModel Require Export Base.
 
 Inductive finish_kind := AndLeave | WithMessage | AndClear | Abandon | AbandonWithMessage.
@@ -53,8 +65,11 @@ Definition op_wf (o : pop) : Prop :=
 Definition st_wf (s : pstate) : Prop :=
   pos s < U64 /\ match len s with Some l => l < U64 | None => True end.
 
-(** Closed-form specification of position(): the value at the last
-    "absolute" event plus the signed sum of the relative ones since, mod 2^64. *)
+(** Specification of position(): the history read in Z WITHOUT machine arithmetic - the
+    value at the last "absolute" event (set_position, reset, a finish that moves to the
+    length) plus the signed sum of the relative ones since; the theorem reduces it mod 2^64
+    once, at the end.  (It is the same recursion over the history as [pstep]; what the
+    theorem adds is that wrapping after every step equals wrapping once.) *)
 Fixpoint pos_spec (p : Z) (l : option N) (ops : list pop) : Z :=
   match ops with
   | [] => p
@@ -77,7 +92,34 @@ Fixpoint pos_spec (p : Z) (l : option N) (ops : list pop) : Z :=
       end
   end.
 
-(** Threads: each thread issues a list of Inc/Dec; an interleaving is any merge. *)
+(** Specification of length(): the same history read in Z with explicit clamps at 0 and
+    2^64-1 (the machine side uses u64::saturating_add / saturating_sub). *)
+Definition clampZ (x : Z) : Z := Z.max 0 (Z.min (18446744073709551616 - 1) x).
+
+Fixpoint len_spec (l : option Z) (ops : list pop) : option Z :=
+  match ops with
+  | [] => l
+  | o :: r =>
+      match o with
+      | SetLen n => len_spec (Some (Z.of_N n)) r
+      | IncLen d => len_spec (option_map (fun n => clampZ (n + Z.of_N d)) l) r
+      | DecLen d => len_spec (option_map (fun n => clampZ (n - Z.of_N d)) l) r
+      | UnsetLen => len_spec None r
+      | _ => len_spec l r
+      end
+  end.
+
+(** Specification of is_finished(): true after a finish/abandon not followed by reset(). *)
+Fixpoint fin_spec (f : bool) (ops : list pop) : bool :=
+  match ops with
+  | [] => f
+  | Finish _ :: r => fin_spec true r
+  | ResetAll :: r => fin_spec false r
+  | _ :: r => fin_spec f r
+  end.
+
+(** Threads: each thread issues a list of operations; an interleaving is any merge that keeps
+    every thread's own order. *)
 Inductive Merge {A} : list (list A) -> list A -> Prop :=
 | Merge_nil : forall ts, Forall (fun t => t = []) ts -> Merge ts []
 | Merge_cons : forall pre x t post l,
@@ -90,6 +132,10 @@ Definition delta (o : pop) : Z :=
   match o with Inc d => Z.of_N d | Dec d => (- Z.of_N d)%Z | _ => 0%Z end.
 
 Definition sum_delta (l : list pop) : Z := fold_right (fun o a => (delta o + a)%Z) 0%Z l.
+
+(* the signed sum of everything all threads add *)
+Definition total_delta (ts : list (list pop)) : Z :=
+  fold_right (fun t a => (sum_delta t + a)%Z) 0%Z ts.
 
 (** correspondence entry point: an op list and the observed getters after it *)
 Definition pos_check (c : option N * list pop * (N * option N * bool)) : bool :=
